@@ -112,6 +112,41 @@ def oracle(line, il):
     return None
 
 
+def do_values(ctx):
+    """direct-drive run of DetailedPlacer (checks/dopt_common.py, cached per process; same run as C05/C02 use): its value_fail list =
+    states (after construction / after an op) where DetailedPlacer::value() differs from the from-scratch wirelength"""
+    from checks import dopt_common
+    return dopt_common.run_dopt(ctx, 3000 if ctx.quick else 60000, ctx.seed + 40)
+
+
+def do_states(case, out):
+    """(op index or -1, value(), HP case of the placement held) for every state of one DO run"""
+    from checks import dopt_common, legal_common
+    ctoks, ntoks = dopt_common.split_do(case)
+    cells, _ = legal_common.cells_of(ctoks)
+    segs = [s.strip() for s in out.split(" / ")]
+    if not segs or not segs[0].startswith("INIT"):
+        return []
+    h = segs[0][4:].split(";")
+    pl0 = [int(x) for x in h[1].split()]
+    frozen = [pl0[3 * k + 2] for k in range(len(cells))]
+    states = [(-1, int(h[0]), "HP " + dopt_common.hp_case(cells, pl0, frozen, ntoks))]
+    k = -1
+    for s in segs[1:]:
+        if s.startswith("L "):
+            continue
+        k += 1
+        parts = [x.strip() for x in s.split(";")]
+        if s == "SKIP" or len(parts) < 4:
+            continue
+        try:
+            v, pl = (int(parts[2]), parts[3]) if parts[0].startswith("B") else (int(parts[1]), parts[2])
+            states.append((k, v, "HP " + dopt_common.hp_case(cells, [int(x) for x in pl.split()], frozen, ntoks)))
+        except ValueError:
+            break
+    return states
+
+
 def run(ctx):
     proof_ok, proof = common.proof_status(ctx, "C09")
     harness = common.build_harness("hpwl")
@@ -180,7 +215,15 @@ def run(ctx):
         ctx.violation("correspondence Hpwl.v <-> Circuit::hpwl broken inside edit sequences (%d answers differ from the model of the state "
                       "they were given for); no input violating C09 found" % len(seq_mism),
                       dict(seq_mism[0], broken="correspondence of coq/Hpwl.v (theorems of Properties_C09.v), sequence stream"), found_input=False)
-    ofail_total = len(ofail) + len(seq_bad)
+    # the incrementally maintained wirelength INSIDE detailed placement: DetailedPlacer driven pass by pass and move by move
+    # (harness/dopt.cpp; swaps, inserts, shifts, reordering with maxNbCells >= 2, single best-move calls); after construction and
+    # after every op value() (= xtopo_.value() + ytopo_.value()) must be the from-scratch wirelength (model tag HP, pin offsets as
+    # at construction) of the placement the placer holds and exports
+    dres = do_values(ctx)
+    for l, what, why in dres["value_fail"][:3]:
+        ctx.violation("the wirelength maintained incrementally by detailed placement violates C09: " + why + " -- " + what,
+                      {"case": l, "format": "see harness/dopt.cpp header (DO)", "implementation_output": what, "why": why})
+    ofail_total = len(ofail) + len(seq_bad) + len(dres["value_fail"])
     for l, i, why in ofail[:3]:
         ctx.violation("wirelength computed by /repo violates C09: " + why,
                       {"case": l, "format": "see harness/hpwl.cpp header", "implementation_output": i, "why": why})
@@ -193,8 +236,17 @@ def run(ctx):
         if not proof_ok:
             ctx.violation("proof obligations of Properties_C09.v do not check", {"broken": "Properties_C09.v", "detail": proof}, found_input=False)
     cov = dict(proof)
+    do_judged = dres["ops"] + dres["runs"] - dres["noleg"] - len(dres["crash"])
     cov.update({"trusted_base": common.TRUSTED_BASE,
-                "evaluations": len(lines) + len(seqhp), "distinct_nontrivial": len(nontriv),
+                "evaluations": len(lines) + len(seqhp) + do_judged, "distinct_nontrivial": len(nontriv),
+                "detailed_placer_value_stream": {"runs": dres["runs"], "not_legalizable": dres["noleg"], "ops": dres["ops"], "op_kinds": dres["op_kinds"],
+                                                 "runs_where_the_placement_changed": dres["nontrivial"], "states_judged": do_judged,
+                                                 "states_where_value_differs_from_scratch": len(dres["value_fail"]),
+                                                 "what": "DetailedPlacer (harness/dopt.cpp) built on a legalized random circuit with nets and driven by 1-8 "
+                                                         "ops: runSwaps/runInserts/runShifts/runReordering (maxNbCells >= 2 included)/runShiftsOnCells/"
+                                                         "runReorderingOnCells/bestSwap/bestInsert/bestSwapUpdate with arbitrary arguments; after "
+                                                         "construction and after every op value() is compared with the model's from-scratch wirelength "
+                                                         "(tag HP) of the placement the placer exports, pin offsets as at construction"},
                 "sequence_stream": {"hpwl_answers_judged": len(seqhp), "distinct_states": len(hl), "answers_differing_from_model": len(seq_mism),
                                     "answers_violating_statement": len(seq_bad),
                                     "what": "one Circuit (1-6 cells, 0-3 nets + added/removed nets, scale up to 2^18) edited by 3-12 public setter "
@@ -203,7 +255,9 @@ def run(ctx):
                 "rule": "PO exhaustive: 8 orientations x w,h in 0..3 x px in -1..w+1 x py in -1..h+1 (%d cases) + random up to 2^20; HP/IN random circuits "
                         "(1-8 cells, all orientations, sizes 0..6 x scale up to 2^18, nets of 0..6 pins with repeated cells, pins inside and outside the outline), "
                         "IN: x or y topology over all cells or a random duplicate-free subset in random order, 0-8 position updates. non-trivial = "
-                        "orientation other than N (PO) / non-zero wirelength (HP, IN); distinct = distinct case lines" % len(po),
+                        "orientation other than N (PO) / non-zero wirelength (HP, IN); distinct = distinct case lines. DO (detailed_placer_value_stream): "
+                        "DetailedPlacer::value() after construction and after every directly driven optimiser op (swap/insert/shift/reordering passes, "
+                        "single best moves) against the from-scratch wirelength of the placement it holds" % len(po),
                 "exhaustive": True, "kinds": kinds,
                 "samples": [po[len(po) // 2], lines[len(po) + 1], lines[-1]],
                 "model_vs_impl_differences": len(mism) + len(seq_mism), "impl_outputs_violating_statement": ofail_total,
@@ -221,6 +275,17 @@ def replay(ctx, path):
     case = r.get("case") or r["first_difference"]["case"]
     harness = common.build_harness("hpwl")
     driver = common.build_driver()
+    if case.startswith("DO "):
+        out, _, _ = common.run_both([common.build_harness("dopt"), "run"], None, [case])
+        states = do_states(case, out[0])
+        model, _, _ = common.run_both([driver], None, [h for _, _, h in states])
+        print("case :", case)
+        bad = 0 if states else 1
+        for (k, v, h), m in zip(states, model):
+            diff = m.strip() != str(v)
+            bad |= diff
+            print("%s: value() = %d, from-scratch wirelength of the placement held = %s%s" % ("after construction" if k < 0 else "after op %d" % k, v, m.strip(), "   <-- DIFFERENT" if diff else ""))
+        return bad
     if case.startswith("SQ "):
         bad = 0
         print("case :", case)
